@@ -19,6 +19,8 @@ not) and any connection state.
 * `unkeyed_session_inert` — any sequence of messages none of whose elements carries the key leaves the
   connection state untouched and is refused element by element.
 * `node_key_nonempty` / `node_gate` — `config.SetApiKey` never leaves the node without a key.
+* `effectiveKey_never_empty` / `persist_failure_refuses_start` / `effectiveKey_gate` — start-up clause: the node
+  either refuses to start (key cannot be persisted) or runs with a non-empty key that gates every request.
 * `initial_endpoint_gated` — with the repaired constructor ordering the *initial* endpoint is gated by the resolved
   key too; `initial_endpoint_ungated_as_found` — the witness of finding F34 (ordering before the repair).
 * `gate_before_every_branch` — for every statement list of the `readRequest` loop body that passes
@@ -399,6 +401,36 @@ theorem node_gate (flag : Str) (file : Option Str) (rnd : Str) (hr : rnd ≠ [])
     (serve cfg st (.single e)).1 = st ∧
     ((∃ c, (serve cfg st (.single e)).2 = .msgErr c) ∨ (∃ c, (serve cfg st (.single e)).2 = .one (.err c))) :=
   gate _ st e (node_key_nonempty flag file rnd hr) hu hp
+
+/-- **effectiveKey_never_empty** (start-up clause): whatever is configured, whatever is at `api.key` and whether
+or not it can be written, the node either does not start (`none`) or runs with a non-empty key. -/
+theorem effectiveKey_never_empty (flag : Str) (fs : KeyFs) (rnd : Str) (hr : rnd ≠ []) :
+    effectiveKey flag fs rnd ≠ some [] := by
+  unfold effectiveKey
+  simp only
+  split
+  · simp
+  · intro h
+    exact node_key_nonempty flag fs.file rnd hr (Option.some.inj h)
+
+/-- a key that has to be generated and cannot be persisted: the start is refused -/
+theorem persist_failure_refuses_start (fs : KeyFs) (rnd : Str) (hf : trimSpace (fs.file.getD []) = [])
+    (hw : fs.writable = false) : effectiveKey [] fs rnd = none := by
+  simp [effectiveKey, setApiKey, hf, hw]
+
+/-- a node that starts is gated by its effective key -/
+theorem effectiveKey_gate (flag : Str) (fs : KeyFs) (rnd k : Str) (hr : rnd ≠ []) (hk : effectiveKey flag fs rnd = some k)
+    (services : List Service) (notifier : Bool) (st : St) (e : Elem) (hp : st.pending = [])
+    (hu : effKey e.keys ≠ some k) :
+    let cfg : Cfg := { apiKey := k, services := services, notifier := notifier }
+    (serve cfg st (.single e)).1 = st ∧
+    ((∃ c, (serve cfg st (.single e)).2 = .msgErr c) ∨ (∃ c, (serve cfg st (.single e)).2 = .one (.err c))) := by
+  have hne : k ≠ [] := fun h => effectiveKey_never_empty flag fs rnd hr (by rw [hk, h])
+  exact gate _ st e hne hu hp
+
+example : effectiveKey [] { file := none, writable := false } [120] = none := by decide
+example : effectiveKey [] { file := some [97], writable := false } [120] = some [97] := by decide
+example : effectiveKey [] { file := none, writable := true } [120] = some [120] := by decide
 
 /-- **as found before the repair, falsifying the property for the start-up window** (finding F34, snapshot
 8023026d: `startInitialRPC` at node.go:152 before `SetApiKey` at :170): the initial endpoint was opened with
